@@ -630,6 +630,9 @@ func c01decBatch(c *Ctx, cnt *counterSet, agg *c01decAgg, dir string, bi int, in
 // c01Decoder is oracle (a) of C01: the decoder monitor.
 func c01Decoder(c *Ctx) {
 	total := c.N(200000, 10000000)
+	if c.ID != "C01" {
+		total = c.N(100000, 1000000)
+	}
 	par := c.N(8, 16) // children running at a time
 	batchSize := min(50000, total/par)
 	nBatches := (total + batchSize - 1) / batchSize
